@@ -132,6 +132,10 @@ func genC17(r *Rng, tier string) []*Case {
 		case 7:
 			a := JFloat(-0.5)
 			in.Alpha = &a
+		case 8, 9: // an explicit alpha = 0 is a valid value, not "unset": bounded by max_iterations
+			a := JFloat(0)
+			in.Alpha = &a
+			in.Max = uint32(1 + r.Intn(8))
 		}
 		cs = append(cs, mk("BCHist", in))
 	}
